@@ -53,6 +53,7 @@
 #define _VAR_CMD    '!'
 #define _VAR_ENV    '%'
 #define _MAX_SUBSTITUTIONS  (1000)  /* per value, stops reference loops */
+#define _MAX_INCLUDES       (1000)  /* per file, stops files including themselves */
 
 /* internal functions */
 static char *_parsestr(qlisttbl_t *tbl, const char *str);
@@ -132,10 +133,18 @@ qlisttbl_t *qconfig_parse_file(qlisttbl_t *tbl, const char *filepath,
 
     // process include directive
     char *strp = str;
+    int numincludes = 0;
 
     while ((strp = strstr(strp, _INCLUDE_DIRECTIVE)) != NULL) {
         if (strp == str || strp[-1] == '\n') {
             char buf[PATH_MAX];
+
+            // a file that includes itself would be expanded for ever.
+            if (++numincludes > _MAX_INCLUDES) {
+                DEBUG("Too many %s directives.", _INCLUDE_DIRECTIVE);
+                free(str);
+                return NULL;
+            }
 
             // parse filename
             char *tmpp;
